@@ -34,6 +34,9 @@ func runC09(c *engine.Ctx) {
 	checkAcquireSuccess(c, "R9")
 	checkReleaseGuard(c, "R10")
 	checkGroupPortLife(c, "R11")
+	// ---- R12 a registration that fails after its port was acquired gives the port back (shared with C10.R2); deferred
+	// rollbacks are judged with the value their captured error variable holds at the exit ----
+	checkRunRollbacks(c, "R12")
 }
 
 // checkGroupPortLife (R11): a tcp group gives its port back when its last member leaves (CloseListener releases under
@@ -695,6 +698,28 @@ func checkPortManager(c *engine.Ctx) {
 		})
 		n++
 		c.Check(okSeed, "server/ports.NewManager>seeds", cf.Pos(), 2, nil, "free set is seeded from allowPorts or the constant full range %s", why)
+		// the full range is the meaning of "no allow-list configured" only: it is seeded on paths that found the
+		// configured list itself empty (not the set derived from it — a configured list that denotes no port allows none)
+		engine.ForEachInstr(cf, func(in ssa.Instruction) {
+			mu, ok := in.(*ssa.MapUpdate)
+			if !ok || !isMapField(mu.Map, freeF) {
+				return
+			}
+			if src := engine.Provenance(mu.Key, engine.ProvOpts{}); src.HasParam("allowPorts") {
+				return
+			}
+			c.AllPaths("server/ports.NewManager>full-range", engine.PathCheck{Fn: cf, Sink: engine.Is(in), Pred: func(st *engine.PathState) string {
+				for _, l := range st.Lits {
+					if arg, ok := lenIsZero(l); ok && isParam("allowPorts")(engine.Unwrap(st.Resolve(arg))) {
+						return ""
+					}
+					if l.Op == token.EQL && l.Val && engine.IsNilConst(l.Y) && isParam("allowPorts")(engine.Unwrap(l.X)) {
+						return ""
+					}
+				}
+				return "the full port range is put into the free set on a path that did not find the configured allowPorts list empty: a configured list that contributes no port would allow every port"
+			}}, "full range only when no allow-list is configured")
+		})
 	}
 	c.Floor(n, 4)
 }
